@@ -14,6 +14,7 @@ import (
 	"github.com/github/git-sizer/meter"
 	"github.com/github/git-sizer/sizes"
 	"verifsched"
+	vsync "verifsched/sync"
 
 	"verif/explore"
 	"verif/gen"
@@ -92,6 +93,42 @@ type c18Scenario struct {
 		ph   string
 		incs int
 	}
+	// workers > 1: the increments of each phase are shared out among that many
+	// scheduler threads (main joins them through the scheduler's WaitGroup)
+	workers int
+}
+
+// c18Body is one execution: the phases in turn, Start / incs x Inc / Done.
+func c18Body(sc c18Scenario, wp **c18Writer) func() {
+	return func() {
+		w := &c18Writer{}
+		*wp = w
+		p := meter.NewProgressMeter(w, time.Hour)
+		for _, ph := range sc.phases {
+			w.frames = append(w.frames, "#start "+ph.ph)
+			p.Start(ph.ph + ": %d")
+			if sc.workers > 1 {
+				var wg vsync.WaitGroup
+				for k := 0; k < sc.workers; k++ {
+					wg.Add(1)
+					n := ph.incs / sc.workers
+					verifsched.Go(func() {
+						defer wg.Done()
+						for i := 0; i < n; i++ {
+							p.Inc()
+						}
+					})
+				}
+				wg.Wait()
+			} else {
+				for i := 0; i < ph.incs; i++ {
+					p.Inc()
+				}
+			}
+			p.Done()
+			w.frames = append(w.frames, "#done "+ph.ph)
+		}
+	}
 }
 
 func c18Scenarios(tier string) []c18Scenario {
@@ -106,6 +143,12 @@ func c18Scenarios(tier string) []c18Scenario {
 		return s
 	}
 	out := []c18Scenario{
+		// two goroutines counting in the same phase (Inc/Add are documented as
+		// safe for that): no increment may be lost
+		{name: "A2+2 (two workers)", phases: []struct {
+			ph   string
+			incs int
+		}{{"A", 4}}, workers: 2},
 		mk("A2 B1", "A", 2, "B", 1),
 		mk("A0 B2 C0", "A", 0, "B", 2, "C", 0),
 		mk("A1", "A", 1),
@@ -163,19 +206,7 @@ func c18Worker(sh *explore.Shard) {
 		for _, p := range sc.phases {
 			incs[p.ph] = p.incs
 		}
-		body := func() {
-			w = &c18Writer{}
-			p := meter.NewProgressMeter(w, time.Hour)
-			for _, ph := range sc.phases {
-				w.frames = append(w.frames, "#start "+ph.ph)
-				p.Start(ph.ph + ": %d")
-				for i := 0; i < ph.incs; i++ {
-					p.Inc()
-				}
-				p.Done()
-				w.frames = append(w.frames, "#done "+ph.ph)
-			}
-		}
+		body := c18Body(sc, &w)
 		// probe: is this the scheduler build, and which objects are shared?
 		probe := verifsched.Run(body, nil, verifsched.Sched{TicksPerTicker: ticks})
 		if len(probe.Points) == 0 && sh.I == 0 && si == 0 {
@@ -295,8 +326,8 @@ func c18EndToEnd(sh *explore.Shard) {
 			for c, id := range commits {
 				rr.SetRef(fmt.Sprintf("refs/heads/b%d", c), id)
 			}
-			for _, style := range []sizes.NameStyle{sizes.NameStyleFull, sizes.NameStyleNone} {
-				one(&gen.Scenario{Repo: &rr, Desc: fmt.Sprintf("dag n=%d masks=%v (all commits share one root tree)", nn, masks)}, style)
+			for _, style := range []sizes.NameStyle{sizes.NameStyleFull, sizes.NameStyleHash, sizes.NameStyleNone} {
+				one(&gen.Scenario{Repo: &rr, Desc: fmt.Sprintf("dag n=%d masks=%v style=%v (all commits share one root tree)", nn, masks, style)}, style)
 			}
 			return true
 		})
@@ -388,20 +419,8 @@ func c18Replay(caseJSON []byte) (string, error) {
 			for _, p := range sc.phases {
 				incs[p.ph] = p.incs
 			}
-			w := &c18Writer{}
-			body := func() {
-				w = &c18Writer{}
-				p := meter.NewProgressMeter(w, time.Hour)
-				for _, ph := range sc.phases {
-					w.frames = append(w.frames, "#start "+ph.ph)
-					p.Start(ph.ph + ": %d")
-					for i := 0; i < ph.incs; i++ {
-						p.Inc()
-					}
-					p.Done()
-					w.frames = append(w.frames, "#done "+ph.ph)
-				}
-			}
+			var w *c18Writer
+			body := c18Body(sc, &w)
 			x := verifsched.Run(body, c.Schedule, verifsched.Sched{TicksPerTicker: c.Ticks, Trace: true})
 			fmt.Println("frames written under the recorded schedule:")
 			for _, f := range w.frames {
@@ -445,6 +464,6 @@ func c18Parent(prop, tier string) int {
 
 func init() {
 	Registry["C18"] = &Check{Level: "model_checking", Worker: c18Worker, Parent: c18Parent, ReplayExe: "/verif/.build/vcheck-sched", Replay: c18Replay, QuickBudget: 60 * time.Second, ThoroughBudget: 10 * time.Minute,
-		Rule:        "the real meter/meter.go, mechanically rewritten from its current text so that every mutex, atomic, channel, select, close, ticker and go statement is a scheduling point of a cooperative scheduler (one logical thread at a time), as is every write to the meter's writer; threads: the worker (Start/Inc*/Done per phase), every ticker goroutine the code spawns, one environment thread per ticker offering 2 (quick) / 3 (thorough) ticks; ALL schedules with at most 3 (quick) / 4 (thorough) deviations from the default schedule are executed; oracle on the byte frames written to the meter's writer: exactly one LF-terminated frame per phase carrying the number of Inc calls, counts within a phase never decrease and never exceed the final count, no frame of a phase after its final line or before its Start; deadlock, panic and step-horizon are violations; every violation is confirmed by replaying its schedule twice. end-to-end: in-process scans of all commit DAGs n<=3 (all commits sharing one root tree) and the mixed family (all references walked, partial selections with a ROOT, ROOT only) and repositories of 255..2050 distinct blobs / commits+trees+blobs / chained tags (sizes around internal batch sizes) with the real meter: each phase's final line must carry the census count of its kind (references phase: number of roots processed, walked or not). auxiliary: 2 (6) free-running runs of a -race build of a driver that increments flat out while the meter's ticker reports every 20 us / 1 ms (a report is a violation, silence is not evidence). states = distinct frame sequences observed; transitions = scheduling steps; non-trivial = executions whose schedule contains at least one deviation (every explored schedule is distinct)",
+		Rule:        "the real meter/meter.go, mechanically rewritten from its current text so that every mutex, atomic, channel, select, close, ticker and go statement is a scheduling point of a cooperative scheduler (one logical thread at a time), as is every write to the meter's writer; threads: the worker (Start/Inc*/Done per phase; one scenario with two workers counting in the same phase), every ticker goroutine the code spawns, one environment thread per ticker offering 2 (quick) / 3 (thorough) ticks; ALL schedules with at most 3 (quick) / 4 (thorough) deviations from the default schedule are executed; oracle on the byte frames written to the meter's writer: exactly one LF-terminated frame per phase carrying the number of Inc calls, counts within a phase never decrease and never exceed the final count, no frame of a phase after its final line or before its Start; deadlock, panic and step-horizon are violations; every violation is confirmed by replaying its schedule twice. end-to-end: in-process scans of all commit DAGs n<=3 (all commits sharing one root tree) and the mixed family (all references walked, partial selections with a ROOT, ROOT only) and repositories of 255..2050 distinct blobs / commits+trees+blobs / chained tags (sizes around internal batch sizes) with the real meter: each phase's final line must carry the census count of its kind (references phase: number of roots processed, walked or not). auxiliary: 2 (6) free-running runs of a -race build of a driver that increments flat out while the meter's ticker reports every 20 us / 1 ms (a report is a violation, silence is not evidence). states = distinct frame sequences observed; transitions = scheduling steps; non-trivial = executions whose schedule contains at least one deviation (every explored schedule is distinct)",
 		Assumptions: []string{"scheduling points sit at synchronisation operations: an unsynchronised access is invisible to the explorer (data races are looked for by the separate free-running -race passes of C17 and C18, which are sampling and decide nothing by silence)", "ticks beyond the per-ticker bound are not explored"}}
 }
